@@ -82,7 +82,7 @@ var groups = []string{"archive", "body", "armor", "structural"}
 func genCases(seed int64, tier string) []core.Case {
 	n := 16
 	if tier == "thorough" {
-		n = 48
+		n = 120
 	}
 	rng := rand.New(rand.NewSource(seed*15485863 + 17))
 	var out []core.Case
